@@ -11,7 +11,7 @@ VARS = ['a', 'b', 'c', 'd']
 
 PAST_OPS = set(sg.TERM_UN + sg.TERM_BIN + ('pred',) + sg.BOOL_UN + sg.BOOL_BIN + sg.EVENT + sg.SHIFT_PAST + sg.PAST_UN
                + ('since', 'once_b', 'historically_b', 'since_b'))
-BOUNDED_FUTURE_OPS = PAST_OPS | set(sg.SHIFT_FUT) | {'eventually_b', 'always_b', 'until_b'}
+BOUNDED_FUTURE_OPS = PAST_OPS | set(sg.SHIFT_FUT) | {'eventually_b', 'always_b', 'until_b', 'unless_b'}
 NO_UNBOUNDED_FUTURE_OPS = BOUNDED_FUTURE_OPS
 DENSE_OFFLINE_OPS = set(sg.ALL_OPS) - set(sg.DISCRETE_ONLY)
 DENSE_PAST_OPS = PAST_OPS - set(sg.DISCRETE_ONLY)
